@@ -187,7 +187,7 @@ class Protocol:
         raw: bytes = message.pack_message(negotiated)
 
         code: str = 'send-{}'.format(Message.CODE.short(message.ID))
-        self.peer.stats[code] += 1
+        self.peer.stats[code] = self.peer.stats.get(code, 0) + 1
         if self._api.get(code, False):
             self._to_api('send', message, raw)
 
@@ -197,7 +197,7 @@ class Protocol:
         """Send raw BGP message using async I/O."""
         assert self.connection is not None
         code: str = 'send-{}'.format(Message.CODE.short(raw[18]))
-        self.peer.stats[code] += 1
+        self.peer.stats[code] = self.peer.stats.get(code, 0) + 1
         if self._api.get(code, False):
             # Parse the raw bytes to get an Update for API
             update = Update(raw[19:])
@@ -255,7 +255,7 @@ class Protocol:
         )
 
         code = 'receive-{}'.format(Message.CODE.short(msg_id))
-        self.peer.stats[code] += 1
+        self.peer.stats[code] = self.peer.stats.get(code, 0) + 1
         for_api = self._api.get(code, False)
 
         if for_api and packets and not consolidate:
